@@ -144,6 +144,34 @@ def scalar_runs(ctx, rng, idx):
     nstep = int(rng.integers(1, 31))
     ctx.describe(integrator=iname, cfl=cfl, nstep=nstep, amplitude=amp, data=s.field.data[0], **{k: v for k, v in s.desc().items() if k != "prim"})
     solver = gen.integ(iname)(s.mesh, s.disc)
-    solver.solve(s.field, cfl, stop={"maxit": nstep})
+    # what the user of solve() gets back: snapshots at requested times (anywhere inside a step, a hair after / before the end of one,
+    # exactly on it) -- every one of them inside the range of the initial data, with no more total variation (the monitor above
+    # judges the steps it sees at the CFL number they are taken with; a snapshot reached by an over-long side step is a state the
+    # caller obtained at the CFL number HE asked for)
+    tsave = []
+    if rng.random() < 0.4:
+        with probes.quiet():
+            dt0 = float(np.min(s.disc.calc_timestep(s.field, cfl)))
+        if np.isfinite(dt0) and dt0 > 0:
+            t0 = s.field.time
+            for _ in range(int(rng.integers(1, 5))):
+                kk = int(rng.integers(0, nstep + 1))
+                tsave.append(t0 + dt0 * (kk + float(rng.choice([0.0005, 0.9995, 0.5, 0.0, float(rng.uniform(0.01, 0.99))]))))
+            tsave = sorted(tsave)
+    res = solver.solve(s.field, cfl, tsave, stop={"maxit": nstep + 2})
+    q0 = np.asarray(s.field.data[0], float)
+    if type(s.num).__name__ == "extrapol1" and mname != "convection":
+        res = []          # Burgers with first-order upwinding is not in the stated class
+    for snap in res:
+        q = np.asarray(snap.data[0], float)
+        if not np.all(np.isfinite(q)):
+            continue
+        tol_ = 1e-13 * q0.size * (np.max(np.abs(q0)) + 1e-300) * (nstep + 3)
+        cls_ = "upwind1/convection" if type(s.num).__name__ == "extrapol1" else "muscl-%s/%s" % (s.rname.split("_")[-1], mname)
+        if s.rname.startswith("muscl_user"):
+            continue
+        ctx.true("snapshot-range", np.max(q) <= np.max(q0) + tol_ and np.min(q) >= np.min(q0) - tol_, cls_ + "/returned-snapshot-outside-the-range-of-the-initial-data",
+                 {"snapshot time": snap.time, "excess above": float(np.max(q) - np.max(q0)), "excess below": float(np.min(q0) - np.min(q)), "cfl": cfl, "tsave": tsave}, cls=cls_)
+        ctx.true("snapshot-tv", tv(q) <= tv(q0) + tol_, cls_ + "/returned-snapshot-with-more-total-variation-than-the-initial-data", {"snapshot time": snap.time, "tv": tv(q), "tv initial": tv(q0)}, cls=cls_)
     if np.ptp(s.field.data[0]) > 0:
         ctx.nontrivial("scalar", iname, cfl, nstep, s.desc())
